@@ -9,10 +9,10 @@ classes, NocaseDict, lists, CIMDateTime/number/string leaves) and over ANY `str.
 different after casefolding, one attribute per slot, name slots hold None or a string) and NaN-freedom.
 Which attribute is compared/hashed how comes from Generated/Slots.lean (source extraction).
 -/
-import Proofs.Lemmas.Copy
+import Proofs.Lemmas.Mut
 
 namespace C05
-open Pywbem.Model.Eq Pywbem.Generated.Slots Proofs.Eq
+open Pywbem.Model.Eq Pywbem.Generated.Slots Pywbem.Proto Proofs.Eq
 
 /-! ## `==` is an equivalence -/
 
@@ -255,5 +255,261 @@ theorem C05_copy_spec_as_documented : ∀ k : Kind, copySpec k = (slotsOf k).map
 theorem C05_dict_copy_shape (n i : Nat) (es : List (Key × Obj)) :
     copyObj n (.dict i es) = (.dict n es, n + 1) ∧ shallowObj n (.dict i es) = (.dict n es, n + 1) := by
   simp [copyObj, shallowObj]
+
+/-! ## NocaseDict operations (`__setitem__`, `__getitem__`, `__delitem__`, `in`, get, pop, popitem, setdefault,
+update, clear, len, keys — Model/NocaseDict.lean) -/
+
+/-- **The NocaseDict invariant is not an assumption for dictionaries built through the API**: after ANY sequence of
+    calls, starting from the empty dictionary, no two items have the same casefolded key. -/
+theorem C05_dict_api_keeps_invariant (C : CaseOps) (allow : Bool) (ops : List DOp) :
+    (keysOf C (dRun C { allow := allow, items := [] } ops).1.items).Nodup :=
+  dRun_inv C ops _ (by simp [DInv, keysOf])
+
+/-- … and from any state that satisfies it -/
+theorem C05_dict_api_keeps_invariant_from (C : CaseOps) (s : DState) (h : (keysOf C s.items).Nodup)
+    (ops : List DOp) : (keysOf C (dRun C s ops).1.items).Nodup :=
+  dRun_inv C ops s h
+
+/-- hence a dictionary filled item by item (every dict-valued setter of _cim_obj.py, `NocaseDict(iterable)`) with
+    good values is `good`: the hypothesis of the `==`/hash theorems is discharged for constructed dictionaries -/
+theorem C05_dict_from_items_good (C : CaseOps) (i : Nat) (items : Items) (gv : ∀ e ∈ items, good C e.2 = true) :
+    good C (.dict i (dFromItems C items)) = true :=
+  good_dFromItems C i items gv
+
+example : dFromItems CaseOps.py [(some ['a'], .none), (some ['B'], .atom (.num 1 1 1)), (some ['A'], .atom (.num 1 2 1))]
+    = [(some ['A'], .atom (.num 1 2 1)), (some ['B'], .atom (.num 1 1 1))] := by rfl
+
+/-- `d[k] = v` then `d[k']`: the new value iff the keys agree up to case, else what was there before -/
+theorem C05_dict_getitem_after_setitem (C : CaseOps) (k : Key) (v : Obj) (k' : Key) (es : Items) :
+    lookup C k' (dSet C k v es) = if ckey C k = ckey C k' then some v else lookup C k' es :=
+  lookup_dSet C k v k' es
+
+/-- `del d[k]` then `d[k']` -/
+theorem C05_dict_getitem_after_delitem (C : CaseOps) (k k' : Key) (es : Items) (h : (keysOf C es).Nodup) :
+    lookup C k' (dErase C k es) = if ckey C k = ckey C k' then Option.none else lookup C k' es :=
+  lookup_dErase C k k' es h
+
+/-- item assignment keeps the iteration order: an existing key keeps its position (and the number of items),
+    a new key is appended -/
+theorem C05_dict_setitem_position (C : CaseOps) (k : Key) (v : Obj) (es : Items) :
+    (ckey C k ∈ keysOf C es → keysOf C (dSet C k v es) = keysOf C es ∧ (dSet C k v es).length = es.length) ∧
+    (ckey C k ∉ keysOf C es → keysOf C (dSet C k v es) = keysOf C es ++ [ckey C k]) :=
+  ⟨fun h => ⟨keysOf_dSet_mem C k v es h, length_dSet_mem C k v es h⟩, keysOf_dSet_not_mem C k v es⟩
+
+/-- **Extensionality**: two good NocaseDicts are `==` iff every key (up to case) is absent in both or present in
+    both with `==` values — the iteration order and the spelling of the keys never matter. -/
+theorem C05_dict_eq_iff_lookup (C : CaseOps) (i j : Nat) (es fs : Items)
+    (ge : good C (.dict i es) = true) (gf : good C (.dict j fs) = true) :
+    eqObj C (.dict i es) (.dict j fs) = true ↔ ∀ k, optRel C (lookup C k es) (lookup C k fs) :=
+  eqDict_iff_lookup C i j es fs ge gf
+
+/-- `==` is a congruence for item assignment (keys may differ in case, values may be merely `==`) … -/
+theorem C05_dict_eq_congr_setitem (C : CaseOps) (i j : Nat) (es fs : Items) (k k' : Key) (v w : Obj)
+    (ge : good C (.dict i es) = true) (gf : good C (.dict j fs) = true)
+    (gv : good C v = true) (gw : good C w = true)
+    (h : eqObj C (.dict i es) (.dict j fs) = true) (hk : ckey C k = ckey C k') (hv : eqObj C v w = true) :
+    eqObj C (.dict i (dSet C k v es)) (.dict j (dSet C k' w fs)) = true := by
+  rw [eqDict_iff_lookup C i j _ _ (good_dSet C i k v es ge gv) (good_dSet C j k' w fs gf gw)]
+  have h0 := (eqDict_iff_lookup C i j es fs ge gf).mp h
+  intro q
+  rw [lookup_dSet, lookup_dSet, ← hk]
+  by_cases hq : ckey C k = ckey C q
+  · simpa [hq, optRel] using hv
+  · simpa [hq] using h0 q
+
+/-- … and for item deletion -/
+theorem C05_dict_eq_congr_delitem (C : CaseOps) (i j : Nat) (es fs : Items) (k k' : Key)
+    (ge : good C (.dict i es) = true) (gf : good C (.dict j fs) = true)
+    (h : eqObj C (.dict i es) (.dict j fs) = true) (hk : ckey C k = ckey C k') :
+    eqObj C (.dict i (dErase C k es)) (.dict j (dErase C k' fs)) = true := by
+  rw [eqDict_iff_lookup C i j _ _ (good_dErase C i k es ge) (good_dErase C j k' fs gf)]
+  have h0 := (eqDict_iff_lookup C i j es fs ge gf).mp h
+  intro q
+  rw [lookup_dErase C k q es ((good_dict C i es).mp ge).1, lookup_dErase C k' q fs ((good_dict C j fs).mp gf).1,
+    ← hk]
+  by_cases hq : ckey C k = ckey C q
+  · simp [hq, optRel]
+  · simpa [hq] using h0 q
+
+/-- only KeyError (missing key) and ValueError (unnamed key while `allow_unnamed_keys` is off) escape the API -/
+theorem C05_dict_api_errors (C : CaseOps) (s : DState) (op : DOp) (e : PyExc) (h : (dStep C s op).2 = .err e) :
+    e = .keyError ∨ (e = .valueError ∧ s.allow = false) := by
+  have hck : ∀ k x, checkKey s.allow k = .error x → x = .valueError ∧ s.allow = false := by
+    intro k x hx
+    unfold checkKey at hx
+    split at hx
+    · rename_i hc; simp at hc; cases hx; exact ⟨rfl, hc.2⟩
+    · cases hx
+  have hup : ∀ items es x, (updateChecked C s.allow items es).2 = some x → x = .valueError ∧ s.allow = false := by
+    intro items
+    induction items with
+    | nil => intro es x hx; simp [updateChecked] at hx
+    | cons kv rest ih =>
+      obtain ⟨k, v⟩ := kv
+      intro es x hx
+      simp only [updateChecked] at hx
+      cases hc : checkKey s.allow k with
+      | error y => rw [hc] at hx; simp at hx; subst hx; exact hck k y hc
+      | ok _ => rw [hc] at hx; exact ih _ x hx
+  cases op with
+  | setitem k v =>
+    simp only [dStep] at h
+    cases hc : checkKey s.allow k with
+    | error y => rw [hc] at h; simp at h; subst h; exact Or.inr (hck k y hc)
+    | ok _ => rw [hc] at h; simp at h
+  | getitem k =>
+    simp only [dStep] at h
+    cases hc : checkKey s.allow k with
+    | error y => rw [hc] at h; simp at h; subst h; exact Or.inr (hck k y hc)
+    | ok _ =>
+      rw [hc] at h
+      cases hl : lookup C k s.items <;> rw [hl] at h <;> simp at h
+      exact Or.inl h.symm
+  | delitem k =>
+    simp only [dStep] at h
+    cases hc : checkKey s.allow k with
+    | error y => rw [hc] at h; simp at h; subst h; exact Or.inr (hck k y hc)
+    | ok _ =>
+      rw [hc] at h
+      by_cases hd : dContains C k s.items = true <;> simp [hd] at h
+      exact Or.inl h.symm
+  | contains k =>
+    simp only [dStep] at h
+    cases hc : checkKey s.allow k with
+    | error y => rw [hc] at h; simp at h; subst h; exact Or.inr (hck k y hc)
+    | ok _ => rw [hc] at h; simp at h
+  | get k d =>
+    simp only [dStep] at h
+    cases hc : checkKey s.allow k with
+    | error y => rw [hc] at h; simp at h; subst h; exact Or.inr (hck k y hc)
+    | ok _ => rw [hc] at h; simp at h
+  | pop k d =>
+    simp only [dStep] at h
+    cases hc : checkKey s.allow k with
+    | error y => rw [hc] at h; simp at h; subst h; exact Or.inr (hck k y hc)
+    | ok _ =>
+      rw [hc] at h
+      cases hl : lookup C k s.items <;> cases d <;> rw [hl] at h <;> simp at h
+      exact Or.inl h.symm
+  | popitem =>
+    simp only [dStep] at h
+    cases hl : s.items.getLast? with
+    | none => rw [hl] at h; simp at h; exact Or.inl h.symm
+    | some kv => rw [hl] at h; simp at h
+  | setdefault k d =>
+    simp only [dStep] at h
+    cases hc : checkKey s.allow k with
+    | error y => rw [hc] at h; simp at h; subst h; exact Or.inr (hck k y hc)
+    | ok _ =>
+      rw [hc] at h
+      cases hl : lookup C k s.items <;> rw [hl] at h <;> simp at h
+  | update items =>
+    simp only [dStep] at h
+    cases hu : (updateChecked C s.allow items s.items).2 with
+    | none => rw [hu] at h; simp at h
+    | some x => rw [hu] at h; simp at h; subst h; exact Or.inr (hup items s.items x hu)
+  | clear => simp [dStep] at h
+  | len => simp [dStep] at h
+  | keys => simp [dStep] at h
+  | setAllow b => simp [dStep] at h
+
+/-! ## sets and dicts of CIM objects; the class check of `__eq__` -/
+
+/-- **Set / dict membership agrees with `==`** (CPython looks for an element with the same hash that is `==`):
+    for good objects and any builtin hash with set-determined frozenset hash, `b in {xs…}` iff some element `== b`. -/
+theorem C05_set_membership_iff_eq {β : Type} [DecidableEq β] (C : CaseOps) (H : PyHash β) (hf : FsetExt H)
+    (b : Obj) (xs : List Obj) (gb : good C b = true) (gx : ∀ a ∈ xs, good C a = true) :
+    pyIn C H b xs = xs.any (fun a => eqObj C a b) :=
+  pyIn_eq_any C H (fun a ha hq => C05_eq_implies_hash_eq C H hf a b (gx a ha) gb hq)
+
+/-- two objects of the same CIM class are always comparable (after the `_eq_item` fix nothing below raises) … -/
+theorem C05_eq_same_class_never_raises (C : CaseOps) (i j : Nat) (k : Kind) (as bs : List Obj) :
+    eqTop C (.node i k as) (.node j k bs) = .ok (eqObj C (.node i k as) (.node j k bs)) := by
+  simp [eqTop]
+
+/-- … and comparing with an object of another class raises TypeError (documented) -/
+theorem C05_eq_other_class_raises_typeerror (C : CaseOps) (i j : Nat) (k k' : Kind) (as bs : List Obj)
+    (h : k ≠ k') : eqTop C (.node i k as) (.node j k' bs) = .error .typeError := by
+  simp [eqTop, h]
+
+/-! ## mutating a copy -/
+
+/-- **deepcopy / pickle**: whatever is changed in place in the copy (at any identity of the copy, by any function),
+    the original is unchanged — for every original whose identities are below the allocator. -/
+theorem C05_mutating_deepcopy_leaves_original (C : CaseOps) (n : Nat) (a : Obj) (f : Obj → Obj) (i : Nat)
+    (hn : ∀ j ∈ ids a, j < n) (hi : i ∈ ids (deepObj n a).1) : mutAt i f a = a := by
+  apply mutAt_not_mem
+  intro hia
+  have h1 := hn i hia
+  have h2 := ((deepObj_ok C a n).2.2 i hi).1
+  omega
+
+/- Full statement (FALSE — known findings C05-KF2, C05-KF3): the same without `hv`. -/
+/-- **copy()**: a change made in the copy at any identity outside the documented shared set leaves the original
+    unchanged — provided no mutable object sits in a `value` / `path` slot (KF2/KF3 otherwise). -/
+theorem C05_mutating_copy_leaves_original_partial (n i0 : Nat) (k : Kind) (as : List Obj) (f : Obj → Obj) (i : Nat)
+    (hn : ∀ j ∈ ids (.node i0 k as), j < n) (hv : valuesImmutable (.node i0 k as) = true)
+    (hi : i ∈ ids (copyObj n (.node i0 k as)).1) (hdoc : i ∉ documentedShared (.node i0 k as)) :
+    mutAt i f (.node i0 k as) = .node i0 k as := by
+  apply mutAt_not_mem
+  intro hia
+  exact hdoc (C05_copy_sharing_partial n i0 k as hv i hi (hn i hia))
+
+/-- a change at an identity the copy allocated itself (the new object, its re-created dicts / value list / path)
+    never reaches the original — no hypothesis on the values -/
+theorem C05_mutating_fresh_part_of_copy_leaves_original (n : Nat) (a : Obj) (f : Obj → Obj) (i : Nat)
+    (hn : ∀ j ∈ ids a, j < n) (hi : n ≤ i) : mutAt i f a = a := by
+  apply mutAt_not_mem
+  intro hia
+  have := hn i hia
+  omega
+
+-- non-vacuity: re-naming the class of a deep copy (identity 5) of a path with a nested reference leaves it alone,
+-- while the same change through a shared identity (2) is visible
+example : mutAt 2 (fun _ => .none)
+    (.node 0 .instanceName [.atom (.str ['C']), .dict 1 [(some ['k'], .node 2 .className [.atom (.str ['D']), .none, .none])], .none, .none])
+    = .node 0 .instanceName [.atom (.str ['C']), .dict 1 [(some ['k'], .none)], .none, .none] := by
+  simp [mutAt, mutAtList, mutAtEntries]
+
+/-! ## None is a value of its own; pickling; a concrete frozenset hash -/
+
+/-- **None vs anything else** (e.g. the empty string, False, 0, an empty dict): never equal, for `_eq_item` and for
+    `_eq_name` alike — an attribute that is None is told apart from every set attribute -/
+theorem C05_none_differs_from_every_value (C : CaseOps) (b : Obj) (h : b ≠ .none) :
+    eqObj C .none b = false ∧ eqObj C b .none = false ∧ eqName C .none b = false ∧ eqName C b .none = false := by
+  cases b with
+  | none => exact absurd rfl h
+  | atom x => cases x <;> simp [eqObj, eqName]
+  | list i xs => simp [eqObj, eqName]
+  | dict i es => simp [eqObj, eqName]
+  | node i k as => simp [eqObj, eqName]
+
+example : eqName CaseOps.py .none (.atom (.str [])) = false := by simp [eqName]
+
+/-- **Pickle state**: `__setstate__(__getstate__())` restores every slot of every CIM class with the value it had
+    (the slot names are pairwise different, and the compatibility rule that skips `classorigin`/`propagated` keys on
+    CIMClass never matches a slot name) — source extraction of `__slots__` and of the skip rule, for all attribute lists -/
+theorem C05_pickle_state_roundtrip (k : Kind) (as : List Obj) (h : as.length = (rawSlotsOf k).length) :
+    setstate k (getstate k as) = as.map some := by
+  have hn : (rawSlotsOf k).Nodup := by cases k <;> decide
+  have hs : ∀ s ∈ rawSlotsOf k, setstateSkipped k s = false := by cases k <;> decide
+  unfold setstate getstate
+  rw [← lookup_zip_map (rawSlotsOf k) as hn h.symm]
+  apply List.map_congr_left
+  intro s hsm
+  simp [hs s hsm]
+
+example : setstate .className (getstate .className [.atom (.str ['C']), .none, .atom (.str ['n'])])
+    = [some (.atom (.str ['C'])), some .none, some (.atom (.str ['n']))] := by
+  exact C05_pickle_state_roundtrip .className _ (by decide)
+
+/-- the hypothesis `FsetExt` of the hash theorem is satisfied by a CPython-like frozenset hash (a commutative
+    combination over the DISTINCT element hashes): here the sum -/
+theorem C05_frozenset_sum_hash_is_set_determined : FsetExt sumHash := sumHash_fsetExt
+
+/-- hence, for that concrete builtin hash, `a == b → hash(a) == hash(b)` with no hypothesis about hashing left -/
+theorem C05_eq_implies_hash_eq_concrete (C : CaseOps) (a b : Obj) (ga : good C a = true) (gb : good C b = true)
+    (h : eqObj C a b = true) : hashObj C sumHash a = hashObj C sumHash b :=
+  C05_eq_implies_hash_eq C sumHash sumHash_fsetExt a b ga gb h
 
 end C05
